@@ -1005,4 +1005,32 @@ Proof.
     + intros sid rq [H|H]; [discriminate | exact (Qnd sid rq H)].
 Qed.
 
+(* the state handleState computes, as a function of the frame type, END_STREAM and the old state *)
+Definition hs_state (k : fkind) (es : bool) (x : sstate) : sstate :=
+  if fkind_eqb k KRst then SClosed
+  else match x with
+       | SIdle => if fkind_eqb k KHeaders then (if es then SHalfClosed else SOpen) else SIdle
+       | SOpen => if (fkind_eqb k KData || fkind_eqb k KHeaders) && es then SHalfClosed else SOpen
+       | o => o
+       end.
+
+Lemma handle_state_st fr s : st_state (handle_state fr s) = hs_state (sf_kind fr) (flag_has (sf_flags fr) FL_ES) (st_state s).
+Proof.
+  unfold handle_state, hs_state. destruct s. cbn. destruct (sf_kind fr); cbn; destruct st_state; cbn;
+    try destruct (flag_has (sf_flags fr) FL_ES); reflexivity.
+Qed.
+
+Lemma handle_state_fin fr s : st_headersFinished (handle_state fr s) = st_headersFinished s.
+Proof. rewrite handle_state_set. reflexivity. Qed.
+
+Lemma phase_of_handle fr s : phase_of (handle_state fr s) =
+  match hs_state (sf_kind fr) (flag_has (sf_flags fr) FL_ES) (st_state s), st_headersFinished s with
+  | SOpen, false => RS.PHead false
+  | SOpen, true => RS.PBody
+  | SHalfClosed, false => RS.PHead true
+  | SHalfClosed, true => RS.PDone
+  | _, _ => RS.PBad
+  end.
+Proof. unfold phase_of. rewrite handle_state_st, handle_state_fin. reflexivity. Qed.
+
 End Known.
